@@ -653,6 +653,18 @@ pub fn run(args: &Args) -> i32 {
     }
     // one five-entry tree (70 001-byte and empty files, explicit and implied directories) in all 120 entry orders x 8 archive layouts
     let big = crate::zipapi::content_class(4, args.seed);
+    // one-entry archives whose content compresses to exactly its own length (per method; spec_of deflates anything longer than 3 bytes)
+    {
+        let neutral: Vec<Vec<u8>> = crate::zipapi::neutral_contents().into_iter().filter(|(m, _)| *m == 8).map(|(_, c)| c).collect();
+        let mut st = Stats::default();
+        for (k, c) in neutral.iter().enumerate() {
+            for stream in [false, true] {
+                let e = vec![En { name: "docs/neutral.txt".into(), kind: 0, content: c.clone(), perm: Some(0o644) }, En { name: "plain.txt".into(), kind: 0, content: b"abc".to_vec(), perm: Some(0o600) }];
+                check_case(&e, stream, base_r, (7 << 40) + (k * 2 + stream as usize) as u64, &mut st, (7 << 40) + k as u64, "size-neutral-content");
+            }
+        }
+        ctx.stats.merge(st);
+    }
     let tree: Vec<En> = vec![
         En { name: "top.txt".into(), kind: 0, content: b"12345".to_vec(), perm: Some(0o644) },
         En { name: "dir/".into(), kind: 1, content: vec![], perm: Some(0o755) },
